@@ -779,6 +779,13 @@ def resolve_flag(ix, body, sym, discr_op):
 
 
 # ---------------------------------------------------------------------------------------------- the pop-lowest-bit loop
+def _is_struct_local(body, name):
+    for l in range(len(body.locals)):
+        if body.local_name(l) == name:
+            return body.locals[l]["ty"] not in ("board::bitboard::Bitboard",)
+    return False
+
+
 def pop_loop(body, sym, at):
     """The loop around block `at` read as "once for every set bit of a mask, lowest bit first":
 
@@ -794,10 +801,13 @@ def pop_loop(body, sym, at):
     loop = {x for x in live if not body.blocks[x].cleanup and (x == at or (body.reaches(x, at) and body.reaches(at, x)))}
     if at not in body.reachable_from(at):
         return "the block is not in a loop", None
-    sw = [x for x in sorted(loop) if body.blocks[x].term["k"] == "switch"]
-    if len(sw) != 1:
-        return "the loop has %d branch points, not just its head" % len(sw), None
-    h = sw[0]
+    def returns(y):
+        return any(body.blocks[z].term["k"] == "return" for z in body.reachable_from(y, include_start=True))
+    # the ways out of the loop (panic paths aside): exactly one, a branch
+    outs = sorted({x for x in loop for y in body.succ(x) if y not in loop and not body.blocks[y].cleanup and returns(y)})
+    if len(outs) != 1 or body.blocks[outs[0]].term["k"] != "switch":
+        return "the loop can be left at %d places, not just at its emptiness test" % len(outs), None
+    h = outs[0]
     t = body.blocks[h].term
     if len(t["arms"]) != 1 or t["arms"][0][0] != 0:
         return "the loop test is not a two-way test", None
@@ -819,24 +829,54 @@ def pop_loop(body, sym, at):
     if exit_t in loop or stay_t not in loop:
         return "the loop does not leave exactly when the mask is empty", None
     mexpr = mir.strip_copies(mir.strip_refs(mexpr))
-    while mexpr[0] == "field" and mexpr[-1] == "0" and len(mexpr) == 3:
-        mexpr = mir.strip_copies(mexpr[1])       # `m.0 != 0` on a Bitboard local
-    if mexpr[0] != "var":
-        return "the tested mask `%s` is not a local variable" % mir.expr_str(mexpr)[:60], None
-    ml = [l for l in range(len(body.locals)) if body.local_name(l) == mexpr[1]]
+    while mexpr[0] == "field" and mexpr[-1] == "0" and len(mexpr) == 3 and mir.strip_copies(mexpr[1])[0] in ("var", "field"):
+        inner = mir.strip_copies(mexpr[1])
+        if inner[0] == "var" and not _is_struct_local(body, inner[1]):
+            mexpr = inner       # `m.0 != 0` on a Bitboard local
+        else:
+            break
+    # the mask is a local, or one field of a local iterator struct (`iter.remaining` after `next` was expanded in place)
+    mproj = ()
+    base = mexpr
+    if base[0] == "field" and mir.strip_copies(base[1])[0] == "var":
+        mproj = tuple(base[2:])
+        base = mir.strip_copies(base[1])
+    if base[0] != "var":
+        return "the tested mask `%s` is not a local variable (or a field of one)" % mir.expr_str(mexpr)[:60], None
+    ml = [l for l in range(len(body.locals)) if body.local_name(l) == base[1]]
     if len(ml) != 1:
         return "cannot identify the mask local", None
     m = ml[0]
+
+    def proj_names(place):
+        return tuple(x.get("n") if isinstance(x, dict) else x for x in place["p"])
+
     defs = body.defs().get(m, [])
-    inside = [x for x in defs if x[0] in loop]
-    outside = [x for x in defs if x[0] not in loop]
-    if len(outside) != 1 or outside[0][2].get("k") in ("partial",):
-        return "the mask has %d definitions before the loop" % len(outside), None
-    ob, oi, orv = outside[0]
-    init = sym.rvalue(orv) if orv.get("k") != "call" else sym.local(m)
-    if orv.get("k") == "call":
-        tt = orv["t"]
-        init = ("call", tt.get("callee") or "?", tuple(sym.operand(a) for a in tt["args"]))
+    if mproj:
+        whole = [x for x in defs if x[2].get("k") != "partial"]
+        part = [x for x in defs if x[2].get("k") == "partial" and proj_names(x[2]["lhs"])[:len(mproj)] == mproj]
+        if [x for x in whole if x[0] in loop] or len([x for x in whole if x[0] not in loop]) != 1 or [x for x in part if x[0] not in loop]:
+            return "the iterator holding the mask is rebuilt inside the loop or built more than once before it", None
+        ob, oi, orv = [x for x in whole if x[0] not in loop][0]
+        built = sym.rvalue(orv) if orv.get("k") not in ("call",) else ("call", orv["t"].get("callee") or "?", tuple(sym.operand(a) for a in orv["t"]["args"]))
+        built = mir.strip_copies(built)
+        while built[0] == "call" and built[1] == "<I as std::iter::IntoIterator>::into_iter" and len(built[2]) == 1:
+            built = mir.strip_copies(built[2][0])      # the blanket impl for iterators: the iterator itself
+        if not (built[0] == "agg" and len(built) > 4 and built[4] and mproj[0] in built[4]):
+            return "the iterator holding the mask is not built as a struct literal before the loop", None
+        init = built[3][list(built[4]).index(mproj[0])]
+        inside = [(x[0], x[1], x[2]["rv"]) for x in part if x[0] in loop]
+        outside = [(ob, oi, orv)]
+    else:
+        inside = [x for x in defs if x[0] in loop]
+        outside = [x for x in defs if x[0] not in loop]
+        if len(outside) != 1 or outside[0][2].get("k") in ("partial",):
+            return "the mask has %d definitions before the loop" % len(outside), None
+        ob, oi, orv = outside[0]
+        init = sym.rvalue(orv) if orv.get("k") != "call" else sym.local(m)
+        if orv.get("k") == "call":
+            tt = orv["t"]
+            init = ("call", tt.get("callee") or "?", tuple(sym.operand(a) for a in tt["args"]))
 
     def once(x):
         return x in loop and h not in body.reachable_from(stay_t, removed={x}, include_start=True) or x == stay_t
@@ -845,10 +885,10 @@ def pop_loop(body, sym, at):
     for x in sorted(loop):
         for s in body.blocks[x].stmts:
             rv = s["rv"]
-            if rv["k"] in ("ref", "rawptr") and rv.get("mut", rv["k"] == "rawptr") and rv["p"]["l"] == m:
+            if rv["k"] in ("ref", "rawptr") and rv.get("mut", rv["k"] == "rawptr") and rv["p"]["l"] == m and proj_names(rv["p"])[:len(mproj)] == mproj:
                 borrows.append((x, s["lhs"]["l"]))
     pops = [(x, body.blocks[x].term) for x in sorted(loop) if body.blocks[x].term["k"] == "call" and (body.blocks[x].term.get("callee") or "").endswith("Bitboard::drop_forward")
-            and mir.strip_copies(mir.strip_refs(sym.operand(body.blocks[x].term["args"][0]))) == ("var", mexpr[1])]
+            and mir.strip_copies(mir.strip_refs(sym.operand(body.blocks[x].term["args"][0]))) == mexpr]
     if pops:
         if len(pops) != 1 or inside or len(borrows) != 1:
             return "the mask is popped %d times and otherwise written %d times per iteration" % (len(pops), len(inside) + len(borrows) - 1), None
@@ -861,7 +901,7 @@ def pop_loop(body, sym, at):
         return "the mask is written %d times per iteration" % len(inside), None
     ub, ui, urv = inside[0]
     u = sym.rvalue(urv)
-    v = ("var", mexpr[1])
+    v = mexpr
     ok = u[0] == "bin" and u[1] == "BitAnd" and any(
         a == v and bb[0] == "bin" and bb[1].startswith("Sub") and bb[2] == v and bb[3][0] == "const" and bb[3][1] == 1 for a, bb in ((u[2], u[3]), (u[3], u[2])))
     if not ok:
